@@ -15,7 +15,11 @@ mod fancy_keys { include!(concat!(env!("VERIF_REPO_SRC"), "/fancy_keys.rs")); }
 mod char_production_map { include!(concat!(env!("VERIF_REPO_SRC"), "/char_production_map.rs")); }
 mod physical_keyboard_layouts { include!(concat!(env!("VERIF_REPO_SRC"), "/physical_keyboard_layouts.rs")); }
 mod fancy_layout_interpreting { include!(concat!(env!("VERIF_REPO_SRC"), "/fancy_layout_interpreting.rs")); }
-mod layout_parsing_formatting { include!(concat!(env!("VERIF_REPO_SRC"), "/layout_parsing_formatting.rs")); }
+mod layout_parsing_formatting {
+  include!(concat!(env!("VERIF_REPO_SRC"), "/layout_parsing_formatting.rs"));
+  pub mod probe { use super::*; include!("fe_probe.rs"); }
+  pub use self::probe::*;
+}
 
 mod layout_loading { include!(concat!(env!("VERIF_REPO_SRC"), "/layout_loading.rs")); }
 mod loader_probe { include!("loader_probe.rs"); }
@@ -143,6 +147,7 @@ fn main() {
     "twin" => { let n: u64 = args[3].parse().unwrap(); let seed: u64 = args[4].parse().unwrap(); std::process::exit(twin(&args[2], n, seed)); },
     "programs" => { let n: u64 = args[2].parse().unwrap(); let seed: u64 = args[3].parse().unwrap(); std::process::exit(loader_probe::programs_bounded(n, seed)); },
     "anymod" => { std::process::exit(key_transforms::anymod()); },
+    "hek" => { std::process::exit(layout_parsing_formatting::hek_bounded()); },
     "c18" => {
       let seed: u64 = args[2].parse().unwrap(); let budget: u64 = args[3].parse().unwrap();
       std::process::exit(dev_input_rw::c18(seed, budget));
